@@ -91,7 +91,7 @@ def _slow(prog, rep):
                      "the line pushed when the output vector is %s starts with %s, expected %s" % (
                          "empty" if rec.acc_empty else "non-empty", D(pref[1]), D(app) if app else "the applicable indent"), site=site)
         else:
-            ok = app is not None and e_app is True
+            ok = (app is not None and e_app is True) or (rec.e_init is True and rec.e_sub is True)
             r1.check(ok, "unindented-push", "a line without indent part is only pushed when the applicable indent is empty",
                      "EMPTY(applicable indent) on this path",
                      "%s is pushed without indent (%s) on a path where the applicable indent is not known to be empty: the line "
@@ -126,7 +126,10 @@ def _fast(prog, rep):
             app = II if ae is True else SI if ae is False else None
             r2.check(app is not None, "selector", "the fast path decides ACC-EMPTY first", "", "the fast path pushes without testing whether "
                      "the output vector is empty", site=site_of_block(body, pb))
-            r1.check(app is not None and emp.get(app) is True, "fast-unindented",
+            both = emp.get(II) is True and emp.get(SI) is True
+            r2.check(app is not None or both, "selector", "the fast path decides ACC-EMPTY first", "", "the fast path pushes without testing whether "
+                     "the output vector is empty", site=site_of_block(body, pb)) if False else None
+            r1.check((app is not None and emp.get(app) is True) or both, "fast-unindented",
                      "the fast path (no indent part) is only taken when the applicable indent is empty", "EMPTY(applicable indent)",
                      "wrap_single_line's fast path pushes an unindented line on a path where the applicable indent (%s) is not known "
                      "to be empty" % (D(app) if app else "?"), site=site_of_block(body, pb))
